@@ -105,7 +105,7 @@ Theorem step_inv : forall st t, Inv st -> Inv (step v_fixed st t).
 Proof.
   intros st t H. inv_facts H.
   unfold step. destruct (t_pc (threads st t)) eqn:E;
-    cbn [v_fixed v_store_locked v_detach_prewrite v_flusher_swap v_flag_in_writeaof v_detach_store_locked negb andb orb].
+    cbn [v_fixed v_store_locked v_detach_prewrite v_flusher_swap v_flag_in_writeaof v_detach_store_locked v_flusher_store negb andb orb].
   - (* CMD: lock *)
     destruct (lock st) eqn:EL; [exact H|].
     constructor; cbn [threads lock dirty buf file acked].
@@ -334,7 +334,7 @@ Proof. intros progs sched c. apply inv_acked. apply reachable_inv. Qed.
 Lemma step_file_mono : forall v st t c, In c (file st) -> In c (file (step v st t)).
 Proof.
   intros v st t c Hc. unfold step.
-  destruct (t_pc (threads st t)); try destruct (v_flusher_swap v); try destruct (lock st); try destruct (t_cur (threads st t));
+  destruct (t_pc (threads st t)); try destruct (v_flusher_store v); try destruct (v_flusher_swap v); try destruct (lock st); try destruct (t_cur (threads st t));
     cbn [file]; auto using in_app_l.
 Qed.
 
@@ -378,8 +378,8 @@ Qed.
 (* clearing the flag after the unlock (the pinned order of netServe): two connections, one command each *)
 Theorem store_after_unlock_refuted :
   exists progs sched c,
-    In c (acked (run_sched (mkVariant false true false true true) progs sched)) /\
-    ~ In c (file (run_sched (mkVariant false true false true true) progs sched)).
+    In c (acked (run_sched (mkVariant false true false true true false) progs sched)) /\
+    ~ In c (file (run_sched (mkVariant false true false true true false) progs sched)).
 Proof.
   exists f13_progs, f13_sched, 2%N. split.
   - vm_compute. auto.
@@ -389,8 +389,8 @@ Qed.
 (* no pre-write on the goingLive branch: one connection, no interleaving needed *)
 Theorem detach_no_prewrite_refuted :
   exists progs sched c,
-    In c (acked (run_sched (mkVariant true false false true true) progs sched)) /\
-    ~ In c (file (run_sched (mkVariant true false false true true) progs sched)).
+    In c (acked (run_sched (mkVariant true false false true true false) progs sched)) /\
+    ~ In c (file (run_sched (mkVariant true false false true true false) progs sched)).
 Proof.
   exists f13b_progs, f13b_sched, 1%N. split.
   - vm_compute. auto.
@@ -410,10 +410,21 @@ Qed.
 (* a flusher that clears the flag before it holds the lock *)
 Theorem flusher_swap_refuted :
   exists progs sched c,
-    In c (acked (run_sched (mkVariant true true true true true) progs sched)) /\
-    ~ In c (file (run_sched (mkVariant true true true true true) progs sched)).
+    In c (acked (run_sched (mkVariant true true true true true false) progs sched)) /\
+    ~ In c (file (run_sched (mkVariant true true true true true false) progs sched)).
 Proof.
   exists fswap_progs, fswap_sched, 1%N. split.
+  - vm_compute. auto.
+  - apply mem_false_not_in. vm_compute. reflexivity.
+Qed.
+
+(* a flusher that clears the flag at the start of every round, before it holds the lock *)
+Theorem flusher_store_refuted :
+  exists progs sched c,
+    In c (acked (run_sched (mkVariant true true false true true true) progs sched)) /\
+    ~ In c (file (run_sched (mkVariant true true false true true true) progs sched)).
+Proof.
+  exists fstore_progs, fstore_sched, 1%N. split.
   - vm_compute. auto.
   - apply mem_false_not_in. vm_compute. reflexivity.
 Qed.
@@ -421,8 +432,8 @@ Qed.
 (* the flag raised by the dispatcher after writeAOF: script writes never raise it *)
 Theorem flag_in_dispatcher_refuted :
   exists progs sched c,
-    In c (acked (run_sched (mkVariant true true false false true) progs sched)) /\
-    ~ In c (file (run_sched (mkVariant true true false false true) progs sched)).
+    In c (acked (run_sched (mkVariant true true false false true false) progs sched)) /\
+    ~ In c (file (run_sched (mkVariant true true false false true false) progs sched)).
 Proof.
   exists fdisp_progs, fdisp_sched, 1%N. split.
   - vm_compute. auto.
@@ -432,8 +443,8 @@ Qed.
 (* the goingLive copy unlocking before it clears the flag *)
 Theorem detach_store_unlocked_refuted :
   exists progs sched c,
-    In c (acked (run_sched (mkVariant true true false true false) progs sched)) /\
-    ~ In c (file (run_sched (mkVariant true true false true false) progs sched)).
+    In c (acked (run_sched (mkVariant true true false true false false) progs sched)) /\
+    ~ In c (file (run_sched (mkVariant true true false true false false) progs sched)).
 Proof.
   exists fdet_progs, fdet_sched, 2%N. split.
   - vm_compute. auto.
